@@ -36,7 +36,7 @@ Blame ==
   @@ "cb.pb.failed" :> {"C02", "C03", "C04", "C06"} @@ "cb.pb.failed.restarted" :> {"C02", "C03", "C04", "C06", "C07"}
   @@ "hb.phase.failed.startErr.restarted" :> {"C06", "C03", "C07"}
   @@ "oe.res.failed.startErr.restarted" :> {"C06", "C02", "C03", "C07"} @@ "oe.res.failed.startErr.await.restarted" :> {"C06", "C02", "C03", "C04", "C07"}
-  @@ "exit.loop.aftertimeout" :> {"C11", "C03"}
+  @@ "exit.loop.aftertimeout" :> {"C11", "C03"} @@ "exit.loop.held" :> {"C03", "C05", "C15"}
   @@ "oe.res.stopped.failed" :> {"C14", "C06"} @@ "oe.res.running.failed" :> {"C14", "C06"}
   @@ "oe.res.try_from_registry.failed" :> {"C08", "C14", "C06"} @@ "oe.res.already_running.failed" :> {"C08", "C14", "C06"}
   @@ "oe.done.failed" :> {"C08", "C14", "C06"}
@@ -83,12 +83,12 @@ Blame ==
   @@ "oe.actor.weak_caller" :> {"C15"} @@ "oe.actor.to_addr" :> {"C15", "C17"} @@ "oe.actor.detach" :> {"C17"}
   @@ "oe.actor.from_registry" :> {"C08"} @@ "oe.actor.register" :> {"C08"} @@ "oe.actor.replace" :> {"C08"}
   @@ "oe.actor.unregister" :> {"C08"} @@ "oe.actor.try_from_registry" :> {"C08"} @@ "oe.actor.already_running" :> {"C08"}
-  @@ "oe.res.from_registry" :> {"C08"} @@ "oe.res.setup" :> {"C08"} @@ "oe.res.register" :> {"C08"} @@ "oe.res.replace" :> {"C08"}
+  @@ "oe.res.from_registry" :> {"C08"} @@ "oe.res.setup" :> {"C08"} @@ "oe.res.register" :> {"C08", "C14"} @@ "oe.res.replace" :> {"C08"}
   @@ "oe.res.unregister" :> {"C08"} @@ "oe.res.try_from_registry" :> {"C08", "C14"} @@ "oe.res.already_running" :> {"C08"}
   @@ "oe.ready.from_registry" :> {"C08"} @@ "oe.ready.setup" :> {"C08"} @@ "oe.ready.register" :> {"C08"}
   @@ "oe.ready.replace" :> {"C08"} @@ "oe.ready.unregister" :> {"C08"} @@ "oe.ready.already_running" :> {"C08"}
   @@ "oe.done"    :> {"C08", "C14"}
-  @@ "oe.res.register.entryfailed" :> {"C08", "C06"} @@ "oe.res.from_registry.entryfailed" :> {"C08", "C06"} @@ "oe.res.setup.entryfailed" :> {"C08", "C06"}
+  @@ "oe.res.register.entryfailed" :> {"C08", "C06", "C14"} @@ "oe.res.from_registry.entryfailed" :> {"C08", "C06"} @@ "oe.res.setup.entryfailed" :> {"C08", "C06"}
   @@ "oe.res.replace.entryfailed" :> {"C08", "C06"} @@ "oe.res.unregister.entryfailed" :> {"C08", "C06"}
   @@ "oe.res.already_running.entryfailed" :> {"C08", "C06", "C14"} @@ "oe.res.try_from_registry.entryfailed" :> {"C08", "C06", "C14"}
   @@ "dn.miss"    :> {"C08", "C14"} @@ "dn.type" :> {"C08"} @@ "dn.lock" :> {"C08"}
